@@ -542,7 +542,7 @@ func RunC04(c *Ctx, r *Report) {
 	r.Floors[prefix+"bounds.slice"] = 100
 	r.Floors[prefix+"ext.pre"] = 30
 	r.Floors[prefix+"term.loop"] = 9
-	r.Floors[prefix+"assert.type"] = 1
+	r.Floors[prefix+"assert.type"] = 0
 	r.Floors[prefix+"nil.map"] = 1
 	r.Floors[prefix+"bounds.make"] = 8
 	if len(scope) < 30 {
